@@ -459,6 +459,9 @@ func genXformShapes(c *Ctx) {
 func emitCanonFamily(c *Ctx, size int, ms []tak.Move, full bool) {
 	sz := strconv.Itoa(size)
 	out := c.Emit("canon " + sz + " " + encMoves(ms))
+	if size >= 3 && size <= 8 {
+		c.Emit("scanon " + sz + " " + encMoves(ms))
+	}
 	switch {
 	case out == "err":
 		c.Count("canon.err")
@@ -539,7 +542,7 @@ func genC15(c *Ctx) {
 			emitCanonFamily(c, s.size, ms, true)
 		}
 	}
-	n := c.Scale(1300, 130000)
+	n := c.Scale(1000, 100000)
 	for it := 0; it < n; it++ {
 		size := 3 + c.R.Intn(6)
 		if c.R.Chance(1, 3) {
@@ -603,6 +606,7 @@ func genC15(c *Ctx) {
 				bad = append(bad, bad[len(bad)-1])
 			}
 			o := c.Emit("canon " + strconv.Itoa(size) + " " + encMoves(bad))
+			c.Emit("scanon " + strconv.Itoa(size) + " " + encMoves(bad))
 			c.Count("malformed." + map[bool]string{true: "rejected", false: "accepted"}[o == "err" || o == "panic"])
 		}
 		if c.R.Chance(1, 60) {
@@ -622,6 +626,7 @@ func genC15(c *Ctx) {
 			sz := strconv.Itoa(j.size)
 			c.Count("exhaustive." + sz + "x" + sz + ".plies" + strconv.Itoa(j.plies))
 			c.Emit("canon " + sz + " " + encMoves(ms))
+			c.Emit("scanon " + sz + " " + encMoves(ms))
 			c.Emit("canonchk " + sz + " " + encMoves(ms))
 		})
 	}
